@@ -238,6 +238,8 @@ def run(ctx):
                 other = bnp.as_encoded_array("".join(talpha[:3][::-1]), tenc)
                 res = bnp.as_encoded_array([src, other, src] if len(text) % 2 else [src, src, other, src])
                 want = [text.upper(), "".join(talpha[:3][::-1]), text.upper()] if len(text) % 2 else [text.upper(), text.upper(), "".join(talpha[:3][::-1]), text.upper()]
+            elif route == "call":
+                res = tenc(src)             # the call form of an encoding
             elif route == "as_encoded_array":
                 res = bnp.as_encoded_array(src, tenc)
             elif route == "change_encoding":
@@ -270,10 +272,10 @@ def run(ctx):
             if tname == sname:
                 continue
             for t in texts:
-                for route in ("as_encoded_array", "change_encoding", "encode", "setitem", "list-of-elements", "list-of-rows"):
+                for route in ("as_encoded_array", "change_encoding", "encode", "call", "setitem", "list-of-elements", "list-of-rows"):
                     if route in ("setitem", "list-of-elements", "list-of-rows") and len(t) > 2:
                         continue
-                    items.append(((sname, senc), (tname, tenc), t, route, len(t) % 2 == 1 and route not in ("encode", "setitem", "list-of-elements", "list-of-rows")))
+                    items.append(((sname, senc), (tname, tenc), t, route, len(t) % 2 == 1 and route not in ("encode", "call", "setitem", "list-of-elements", "list-of-rows")))
     if ctx.quick and len(items) > 400000:
         items = [it for i, it in enumerate(items) if i % 3 == ctx.seed % 3]
     for it in ctx.mine(items):
@@ -391,9 +393,16 @@ def run(ctx):
         name, enc = encs[case["enc"]]
         alphabet = list(enc.get_alphabet())
         n = r.randint(1, 7)
-        rows = ["".join(r.choice(alphabet) if r.random() < 0.8 else r.choice(alphabet).lower() for _ in range(r.choice([0, 1, 2, 3, 5, 9]))) for _ in range(n)]
+        one_len = r.choice([1, 2, 4]) if r.random() < 0.3 else None        # rows of one length (reads, barcodes) in a third of the cases
+        rows = ["".join(r.choice(alphabet) if r.random() < 0.8 else r.choice(alphabet).lower() for _ in range(one_len or r.choice([0, 1, 2, 3, 5, 9]))) for _ in range(n)]
         rows = [x if all(accepts([c.upper() for c in alphabet], ord(ch)) for ch in x) else x.upper() for x in rows]
         x = bnp.as_encoded_array(rows, enc)
+        if r.random() < 0.25:
+            # the array is put together from its own rows handed over as a Python list of encoded rows (empty rows among them)
+            x2 = bnp.as_encoded_array([x[i] for i in range(n)]) if n else x
+            got2 = decode_text(x2) if n else []
+            ctx.check("decode-selection", got2 == [t.upper() for t in rows], "list-of-encoded-rows-differs", "as_encoded_array(list of the %d rows of %r) reads %r" % (n, rows, got2), {"encoding": name, "rows": rows, "got": got2, "seed": case["seed"]},
+                      (name, "list-of-rows", tuple(rows)) if any(len(t) == 0 for t in rows) and any(rows) else None)
         kind = r.choice(["whole", "reverse", "perm", "mask", "repeat", "tail", "step", "single-row", "flat"])
         if kind == "whole":
             idx = list(range(n)); sel = x
@@ -417,7 +426,15 @@ def run(ctx):
         want = [rows[i].upper() for i in idx]
         if kind in ("single-row", "flat"):
             want = ["".join(want)]
-        dec = enc.decode(sel)       # nothing has touched `sel` before this call
+        via = "decode"
+        if r.random() < 0.35 and kind not in ("single-row", "flat"):
+            from bionumpy.encoded_array import from_encoded_array
+            via = "from_encoded_array"
+            got_fe = from_encoded_array(sel)       # nothing has touched `sel` before this call
+            got_fe = [str(t).upper() for t in (got_fe if isinstance(got_fe, list) else [got_fe])]
+            ctx.check("decode-selection", got_fe == want, "decode-selection-differs:%s:from_encoded_array" % kind, "from_encoded_array of a %s selection of %r gave %r, expected %r" % (kind, rows, got_fe, want),
+                      {"encoding": name, "rows": rows, "selection": kind, "idx": idx, "got": got_fe, "want": want, "seed": case["seed"]}, (name, kind, tuple(want), "fe") if sum(map(len, want)) else None)
+        dec = enc.decode(sel)       # (nothing has touched `sel` before this call unless from_encoded_array was tried first)
         got = decode_text(dec)
         if kind in ("single-row", "flat"):
             got = ["".join(got)]
